@@ -180,7 +180,9 @@ def run_job(job, rec):
             okf = not any(isinstance(v_, Raised) for v_ in cf) and not isinstance(cj, Raised)
             if okf:
                 cfv = np.array([float(np.ravel(v_)[0]) for v_ in cf])
-                okf = bool(np.all(np.abs(cfv - np.array([0, P.total, 0, P.total])) <= 2e-4)) and abs(float(cj[2]) - P.total) <= 2e-4 and abs(float(cj[0])) <= 2e-4 \
+                # (the kernel estimate's density drops up to 2 Phi(-3.5) = 4.7e-4 of its mass by truncation while its cumulative function reaches 1)
+                tol_far = 6e-4 if is_kde else 2e-4
+                okf = bool(np.all(np.abs(cfv - np.array([0, P.total, 0, P.total])) <= tol_far)) and abs(float(cj[2]) - P.total) <= tol_far and abs(float(cj[0])) <= 2e-4 \
                     and abs(float(cj[1]) - P.mass(-np.inf, float(np.median(x)))) <= 2e-3
             rec.check(okf, "cdf-far-points",
                       lambda: f"{name}: cdf at mean -+ {far_ / sd:.3g} sd and at -+inf = {cf!r}; cdf([far below, median, far above]) = {cj!r}; the density integrates to {P.total!r}", ctx)
@@ -281,6 +283,11 @@ def run_job(job, rec):
                 # sample points, where "the" interval of a given content is one of several - see DESIGN.md section 8)
                 fracs.append(float(1.0 - 10.0 ** mk_rng(job["seed"], "C19-high", job["j"], c, name).uniform(-3.3, -2.0)))
                 rec.count("cases:fraction_above_0.99")
+            if ekw:
+                # a cross-validated bandwidth is usually well below the rule of thumb: the estimate is bumpy at every height, "the" interval of a given
+                # content is one of several (plateau clause) - intervals are not judged for these estimators (normalisation, cdf, mode, moments are)
+                rec.count("kde_cross_validated_intervals_not_judged")
+                fracs = []
             for f in fracs:
                 iv = guarded(E.interval, f)
                 if isinstance(iv, Raised):
@@ -317,7 +324,7 @@ def run_job(job, rec):
                     rec.violation("kde-mode-search-bracket-excludes-peak",
                                   f"{name}: interval({f:.4f}) = ({a!r}, {b!r}) holds {cb - ca!r}: the search started from a reported mode that is not the peak of the density", ictx)
                     continue
-                if f >= 0.9 and a < b and min(pa, pb) <= 1e-8 * P.peak and (cb - ca) - f >= -3e-5 \
+                if a < b and min(pa, pb) <= 1e-8 * P.peak and (cb - ca) - f >= -3e-5 \
                         and (not ok_mass or abs(pa - pb) > 1e-3 * P.peak):
                     # (signature of the stall: the end in the empty region contributes its whole tail, the other end has been moved *outwards* to
                     #  lower its density, so the interval holds more than f - never less - and the density mismatch is that of the far tail)
@@ -327,6 +334,30 @@ def run_job(job, rec):
                     rec.violation("interval-search-stalls-with-an-end-in-an-empty-region",
                                   f"{name}: interval({f:.4f}) = ({a!r}, {b!r}) holds {cb - ca!r}; end densities {pa / P.peak:.2e} and {pb / P.peak:.2e} of the peak", ictx)
                     continue
+                if a < b and (not ok_mass or abs(pa - pb) > 1e-3 * P.peak) and not bumpy_end:
+                    # second recorded finding about the search: scipy's Nelder-Mead stops on the spread of its simplex, not on the cost, and can
+                    # collapse early. Verified case by case: the library's own search, started again from the interval it returned, lowers
+                    # its own cost by orders of magnitude and then meets the content tolerance.
+                    stalled = None
+                    try:
+                        from scipy.optimize import minimize as _min
+                        cost_ = getattr(E, "_DensityEstimator__hdi_cost")
+                        wgt_ = 0.2 / float(E(E.mode))
+                        c0_, w0_ = 0.5 * (a + b), b - a
+                        sx_ = np.array([[c0_, w0_], [c0_, 0.95 * w0_], [c0_ - 0.05 * w0_, w0_]])
+                        r_ = _min(fun=cost_, x0=sx_[0], method="Nelder-Mead", options={"initial_simplex": sx_, "xatol": 1e-5 * w0_, "fatol": 1e-10}, args=(f, wgt_))
+                        before_ = float(cost_(sx_[0], f, wgt_))
+                        a2_, b2_ = r_.x[0] - 0.5 * r_.x[1], r_.x[0] + 0.5 * r_.x[1]
+                        ca2_, cb2_ = (float(v) for v in E.cdf(np.array([a2_, b2_])))
+                        if r_.fun < 1e-3 * before_ and abs((cb2_ - ca2_) - f) <= min(3e-5, 0.05 * f):
+                            stalled = (before_, float(r_.fun))
+                    except Exception:  # noqa: BLE001 - no access to the library's cost: judged as an ordinary violation below
+                        stalled = None
+                    if stalled is not None:
+                        rec.violation("interval-search-stops-before-convergence",
+                                      f"{name}: interval({f:.4f}) = ({a!r}, {b!r}) holds {cb - ca!r}; the library's own search restarted from there lowers its cost "
+                                      f"from {stalled[0]:.3g} to {stalled[1]:.3g} and meets the content", ictx)
+                        continue
                 rec.check(ok_mass, "interval-mass",
                           lambda: f"{name}: interval({f:.4f}) = ({a!r}, {b!r}) holds probability {cb - ca!r} under the estimator's own cdf", ictx)
                 # a kernel estimate is bumpy on the scale of its bandwidth, so for a narrow interval around the
